@@ -96,8 +96,10 @@ def check_c20(case, stats=None):
                 user_open.discard(c.args[0])
             elif c.op == "fd_reg" and r.ret >= 0 and sl and c.args[1] >= 0:
                 fl = c.args[2]
-                if not (fl & SRC_DUP):
-                    active[(sl[0], c.args[1])] = dict(auto=bool(fl & SRC_FD_AUTOCLOSE), oneshot=bool(fl & 16), since=r.i)
+                # (with M_SRC_DUP the library polls - and owns - a private duplicate; the auto-close flag still is about the
+                # descriptor the user handed in.  a one-shot duplicate reports the duplicate's number in its event: identified by its user-data token)
+                if True:
+                    active[(sl[0], c.args[1])] = dict(auto=bool(fl & SRC_FD_AUTOCLOSE), oneshot=bool(fl & 16), since=r.i, dup=bool(fl & SRC_DUP), ud=(c.args[3] if len(c.args) > 3 else 0))
                     if fl & SRC_FD_AUTOCLOSE:
                         auto_regs.setdefault(c.args[1], []).append((sl[0], r.i))
             elif c.op == "fd_dereg" and r.ret >= 0 and sl:
@@ -109,6 +111,11 @@ def check_c20(case, stats=None):
         elif r.k == "V" and r.kind == "fd":
             # a one-shot descriptor source is released once it fired
             k = (r.slot, int(r.fields.get("idx", -9)))
+            if k[1] < 0:
+                udv = int(r.fields.get("ud", "0"))
+                cand = [kk for kk, ee in active.items() if kk[0] == r.slot and ee.get("dup") and ee.get("oneshot") and ee.get("ud") == udv and udv != 0]
+                if cand:
+                    k = cand[0]
             e = active.get(k)
             if e and e.get("oneshot"):
                 active.pop(k)
